@@ -74,6 +74,11 @@ def pick_docs(exe):
     sel = {"tiny": tiny}; sizes = {"tiny": ntiny}
     for name, x in targets.items():
         k = min(by, key=lambda a: (abs(a - x), a)); sel[name] = by[k]; sizes[name] = k
+    # documents that make the parser and the writers give tokens back (token_free / token_tree_free on stripped markers, pruned pairs, re-parsed blocks)
+    mixed = (b"# Head [lab] #\n\n* one\n* two\n    * inner a\n    * inner b\n\n    continued\n\n> quote *em* **st**\n> > deeper `code`\n\n1. first\n2. second\n\nTitle\n=====\n\n"
+             b"| a | b |\n|---|---|\n| 1 | 2 |\n[cap]\n\nterm\n: definition\n\nnote[^n] and [link][r] and <http://a.b/c>\n\n[^n]: the note\n[r]: http://x.y/ \"t\"\n\n```\ncode\n```\n\n    indented\n")
+    sel["mixed"] = mixed; sel["mixed3"] = mixed * 3
+    for nm in ("mixed", "mixed3"): sizes[nm] = measure(exe, [sel[nm]])[0]
     huge = ("*a* " * 3500 + "\n").encode()
     sel["huge"] = huge; sizes["huge"] = measure(exe, [huge])[0]
     return sel, sizes
@@ -207,7 +212,8 @@ def run(tier, seed):
     if len(hists) > (6000 if tier == "quick" else 40000):
         hists = rnd.sample(hists, 6000 if tier == "quick" else 40000)
     dmapA = {1: "tiny", 2: "fill"}; dmapB = {1: "b1024", 2: "big"}
-    scripts = [script_of(h, dmapA if i % 2 == 0 else dmapB) for i, h in enumerate(hists)]
+    dmapC = {1: "mixed", 2: "mixed3"}
+    scripts = [script_of(h, (dmapA, dmapB, dmapC)[i % 3]) for i, h in enumerate(hists)]
     # main.c's two shapes + long random well-bracketed histories over all sized documents (TLC simulation)
     names = list(sel)
     scripts.append(["pinit", line("conv", "s_conv", "huge", 0, docs.STD, 0), "pdrain", "pfree"])
